@@ -278,8 +278,130 @@ class SosEosH(Harness):
         return dict(outputs=[], failures=[l for l, cnd in viol if truth(cnd)])
 
 
+class InfoH(Harness):
+    """the statistics report (_info_and_validate(info=True), the dict get-torch-spect-data-dir-info prints) is the recount of the stored tensors.
+    cfg: T (frames per utt), labels (allowed ali labels), R (ref rows per utt), ref2d, toks (allowed token ids), strict"""
+    functions = ["pydrobert.torch._datasets._info_and_validate"]
+
+    def _run(self, items, strict):
+        import pydrobert.torch._datasets as D
+        ds = StoreDS(items)
+        with patched(D, torch=Shim(torch, save=ds.save)):
+            return D._info_and_validate(ds, True, strict, None)
+
+    def _judge(self, info, alis, refs, eq):
+        """alis[n] = list of label cells; refs[n] = list of (tok, s, e) cells (s=e=-1 for 1-D refs).  Oracle = the documented recount, as terms"""
+        c = self.cfg
+        viol = []
+        cnt = lambda conds: s_add_all([s_ite(x, 1, 0) for x in conds])
+
+        def s_add_all(xs):
+            t = 0
+            for x in xs:
+                t = s_add(t, x)
+            return t
+
+        def s_max_all(xs, init):
+            m = init
+            for x in xs:
+                m = s_ite(s_cmp("gt", x, m), x, m)
+            return m
+
+        all_lab = [x for a in alis.values() for x in a]
+        all_tok = [t for r in refs.values() for (t, _, _) in r]
+        exp = {
+            "num_utterances": len(c["T"]), "num_filts": 2, "total_frames": sum(c["T"]),
+            "total_tokens": len(all_tok) if all_tok else -1,      # documented: -1 if not available; an empty ref dir cannot be told from none
+            "max_ali_class": s_max_all(all_lab, -1), "max_ref_class": s_max_all(all_tok, -1),
+        }
+        for k, v in exp.items():
+            got = info.get(k, None)
+            viol.append((f"{k} is {got}, not the recount", True if got is None else s_not(eq(got, v))))
+        for prefix, pool in (("count", c["labels"]), ("rcount", c["toks"])):
+            mx = info.get("max_ali_class" if prefix == "count" else "max_ref_class", -1)
+            if not isinstance(mx, int):
+                viol.append((f"max class is not an int: {mx!r}", True))
+                continue
+            digits = len(str(max(mx, 1)))
+            for i in range(0, max(pool) + 1):
+                ck, sk = (f"count_{i:0{digits}d}", f"segs_{i:0{digits}d}") if prefix == "count" else (f"rcount_{i:0{digits}d}", f"rsegs_{i:0{digits}d}")
+                if prefix == "count":
+                    e_cnt = cnt(eq(x, i) for x in all_lab)
+                    e_seg = cnt(s_and(eq(a[t], i), True if t == 0 else s_not(eq(a[t - 1], i))) for a in alis.values() for t in range(len(a)))
+                    present_cond = s_cmp("le", i, s_max_all(all_lab, -1))
+                else:
+                    occ = [(eq(t, i), s_, e_) for r in refs.values() for (t, s_, e_) in r]
+                    e_seg = cnt(o for o, _, _ in occ)
+                    unknown = s_any(s_and(o, s_cmp("lt", s_, 0)) for o, s_, e_ in occ)
+                    tot = s_add_all([s_ite(o, s_add(e_, s_mul_neg(s_)), 0) for o, s_, e_ in occ])
+                    e_cnt = s_ite(s_or(unknown, s_cmp("eq", e_seg, 0)), -1, tot)
+                    present_cond = s_cmp("le", i, s_max_all(all_tok, -1))
+                for key, want in ((ck, e_cnt), (sk, e_seg)):
+                    if key in info:
+                        viol.append((f"{key} is {info[key]}, not the recount", s_or(s_not(present_cond), s_not(eq(info[key], want)))))
+                    else:
+                        viol.append((f"{key} missing although class {i} <= max class", present_cond))
+        return viol
+
+    def _cells(self, get, assume):
+        c = self.cfg
+        alis, refs = {}, {}
+        for n, (T, R, two) in enumerate(zip(c["T"], c["R"], c["ref2d"])):
+            a = []
+            for t in range(T):
+                v = get(f"a{n}_{t}", min(c["labels"]), max(c["labels"]))
+                assume(s_any(s_cmp("eq", v, l) for l in c["labels"]))
+                a.append(v)
+            alis[n] = a
+            r = []
+            for j in range(R):
+                tk = get(f"k{n}_{j}", min(c["toks"]), max(c["toks"]))
+                assume(s_any(s_cmp("eq", tk, l) for l in c["toks"]))
+                if two:
+                    s_ = get(f"s{n}_{j}", -1, T)
+                    e_ = get(f"e{n}_{j}", -1, T)
+                    # well-formed and unambiguous: unknown (-1,-1) or a non-empty segment inside the utterance
+                    assume(s_or(s_and(s_cmp("eq", s_, -1), s_cmp("eq", e_, -1)), s_and(s_cmp("ge", s_, 0), s_and(s_cmp("lt", s_, e_), s_cmp("le", e_, T)))))
+                else:
+                    s_, e_ = -1, -1
+                r.append((tk, s_, e_))
+            refs[n] = r
+        return alis, refs
+
+    def symbolic(self, eng):
+        c = self.cfg
+        alis, refs = self._cells(lambda nm, lo, hi: eng.int(nm, lo, hi), eng.assume)
+        items = {}
+        for n, (T, R, two) in enumerate(zip(c["T"], c["R"], c["ref2d"])):
+            ali = eng.tensor(alis[n], (T,), torch.int64)
+            if two:
+                ref = eng.tensor([x for row in refs[n] for x in row], (R, 3), torch.int64)
+            else:
+                ref = eng.tensor([row[0] for row in refs[n]], (R,), torch.int64)
+            items[f"u{n}"] = (torch.zeros(T, 2), ali, ref)
+        info = self._run(items, c.get("strict", True))
+        return dict(outputs=[], viol=self._judge(info, alis, refs, lambda a, b: s_cmp("eq", a, b)))
+
+    def concrete(self, vals):
+        c = self.cfg
+        alis, refs = self._cells(lambda nm, lo, hi: vals[nm], lambda cnd: None)
+        items = {}
+        for n, (T, R, two) in enumerate(zip(c["T"], c["R"], c["ref2d"])):
+            ali = torch.tensor(alis[n], dtype=torch.long).reshape(T)
+            ref = torch.tensor([list(row) for row in refs[n]], dtype=torch.long).reshape(R, 3) if two else torch.tensor([row[0] for row in refs[n]], dtype=torch.long).reshape(R)
+            items[f"u{n}"] = (torch.zeros(T, 2), ali, ref)
+        info = self._run(items, c.get("strict", True))
+        viol = self._judge(info, alis, refs, lambda a, b: a == b)
+        return dict(outputs=[], failures=[l for l, cnd in viol if truth(cnd)])
+
+
+def s_mul_neg(x):
+    from symtorch.scalar import s_sub
+    return s_sub(0, x)
+
+
 META = dict(
-    functions=sorted(set(ValidateH.functions + SosEosH.functions)),
+    functions=sorted(set(ValidateH.functions + SosEosH.functions + InfoH.functions)),
     files=["src/pydrobert/torch/_datasets.py"],
     explanation=(
         "validate_spect_data_set / _info_and_validate run on a duck-typed in-memory data set (torch.save in the module namespace redirected to the store) "
@@ -287,12 +409,17 @@ META = dict(
         "documented conditions: accepted iff every alignment is as long as its features and every boundary pair is both-negative or 0<=start<=end<=T (strict); "
         "with a tolerance iff only the documented small defects are present, after which the stored tensors equal exactly the documented repairs and a second, "
         "strict validation passes; strict validation never writes.  _load_ref/_write_hyp: sos and eos are put around every transcript (empty included) and "
-        "stripped again, so writing what was loaded returns the bare tokens."),
-    bounds=dict(quick="1-2 utterances, T<=3 frames, R<=2 references, boundaries in -2..T+2, fix tolerance 0..3, alignment length T+k for k in 0..2, int32/float alignments, mixed 1-D/2-D",
+        "stripped again, so writing what was loaded returns the bare tokens.  Statistics report: _info_and_validate(info=True) (the dictionary the "
+        "get-torch-spect-data-dir-info command prints) on symbolic alignment labels, token ids and segments must equal the recount written as terms over those "
+        "cells: totals, max classes, per-class frame counts, maximal-run counts, rcount (-1 when a token of the class has unknown boundaries) and rsegs, under "
+        "zero-padded keys for every class up to the maximum."),
+    bounds=dict(statistics="quick: 1-2 utterances, T<=3, R<=2, labels/tokens from 2-3-element sets incl. two-digit ids; thorough: up to 3 utterances, T<=4, R<=3",
+                quick="1-2 utterances, T<=3 frames, R<=2 references, boundaries in -2..T+2, fix tolerance 0..3, alignment length T+k for k in 0..2, int32/float alignments, mixed 1-D/2-D",
                 thorough="2 utterances, T<=3, R<=3, same ranges; every combination of enumerated defects"),
     assumptions=["the data set object is duck-typed (same attributes as SpectDataSet); utterance discovery on a real directory is outside",
                  "CUDA tensors are not available in this sandbox: that defect class is not exercised", "token ids concrete; boundaries symbolic"],
-    outside=["directory discovery (os.listdir)", "CUDA defects", "the get-torch-spect-data-dir-info command's text output"],
+    outside=["directory discovery (os.listdir)", "CUDA defects", "the get-torch-spect-data-dir-info command's argument parsing and text formatting (the dictionary it prints is checked)",
+             "statistics of directories holding empty (start == end) reference segments: the documentation does not say whether they count as 'no boundaries'"],
 )
 
 M_ = "checks.c12"
@@ -313,6 +440,15 @@ def tasks(tier):
         if not q:
             ts.append(task(PROP, M_, "ValidateH", T=[3], alen=[4], R=[3], ref2d=[True], fix=fix, nvalidate=1))
             ts.append(task(PROP, M_, "ValidateH", T=[2, 3], alen=[3, 3], R=[2, 1], ref2d=[True, True], fix=fix, nvalidate=1))
+    ts.append(task(PROP, M_, "InfoH", T=[2, 1], labels=[0, 1, 2], R=[1, 0], ref2d=[True, True], toks=[0, 1], nvalidate=1))
+    ts.append(task(PROP, M_, "InfoH", T=[3], labels=[0, 1, 10], R=[1], ref2d=[True], toks=[0, 11], nvalidate=1))
+    ts.append(task(PROP, M_, "InfoH", T=[2], labels=[0], R=[2], ref2d=[True], toks=[0, 1], nvalidate=1))
+    ts.append(task(PROP, M_, "InfoH", T=[1, 1], labels=[0, 1], R=[2, 1], ref2d=[False, False], toks=[0, 1, 2], nvalidate=1))
+    if not q:
+        ts.append(task(PROP, M_, "InfoH", T=[2, 2], labels=[0, 1, 2], R=[1, 1], ref2d=[True, True], toks=[0, 1], nvalidate=1))
+        ts.append(task(PROP, M_, "InfoH", T=[4], labels=[0, 1, 10], R=[1], ref2d=[False], toks=[0, 1, 10], nvalidate=1))
+        ts.append(task(PROP, M_, "InfoH", T=[3], labels=[1], R=[3], ref2d=[True], toks=[0, 1], nvalidate=1))
+        ts.append(task(PROP, M_, "InfoH", T=[2, 2, 1], labels=[0, 1], R=[1, 1, 1], ref2d=[False, False, False], toks=[0, 1], strict=False, nvalidate=1))
     for R, two, sos, eos, tok in itertools.product((0, 2) if q else (0, 1, 2, 3), (False, True), (None, 5), (None, 6), (False, True)):
         if tok and not two:
             continue
